@@ -327,6 +327,29 @@ func concurrent(args []any) any {
 	return res
 }
 
+// loadFiles merges the given files (with their layers) and returns the typed dump of Documents().
+func loadFiles(dir string, paths []any) any {
+	cwd, _ := os.Getwd()
+	defer os.Chdir(cwd)
+	if err := os.Chdir(dir); err != nil {
+		return []any{"err", "chdir"}
+	}
+	p, err := bkl.New()
+	if err != nil {
+		return []any{"err", "new"}
+	}
+	for _, x := range paths {
+		if err := p.MergeFileLayers(x.(string)); err != nil {
+			return errv(err)
+		}
+	}
+	l := []any{}
+	for _, d := range p.Documents() {
+		l = append(l, d.Data)
+	}
+	return ok(l)
+}
+
 // setRoot exercises nested SetRoot calls of the library in a scratch directory.
 func setRoot(dir string) any {
 	os.RemoveAll(dir)
@@ -468,6 +491,8 @@ func runCase(c any) (res any) {
 		return history(l[1:])
 	case "concurrent":
 		return concurrent(l[1:])
+	case "loadfiles":
+		return loadFiles(l[1].(string), l[2].([]any))
 	case "setroot":
 		return setRoot(l[1].(string))
 	case "yaml":
